@@ -101,6 +101,27 @@ let predict (c : string) (obs : string) : string * string * bool =
   | ["http"; gun; fault; status; en; depth; nto; tag; path; _] ->
       (* the optional last field switches tracing / dumps / answer log on: no effect on samples *)
       predict_http gun fault status en depth nto tag path obs
+  | ["phout"; phases] ->
+      (* one sample per request, each depending on its own exchange only: the samples are values *)
+      let cfg = { at_enabled = false; at_depth = nat_of_int 2; at_notagonly = true } in
+      let one what =
+        let fault = (let rec strip s = if s <> "" && s.[String.length s - 1] >= '0' && s.[String.length s - 1] <= '9'
+                                       then strip (String.sub s 0 (String.length s - 1)) else s in strip what) in
+        let status = (let st = after_prefix fault what in if st = "" then "200" else st) in
+        let st = n_of_string status in
+        let err n = (false, if n = 999 then EOther else EOp (ESys (EErrno (n_of_int n)))) in
+        let x = (match fault, os_errno fault with
+                 | "trunc", Some n -> let (t, e) = err n in XResp (st, BodyErr (t, e))
+                 | _, Some n -> let (t, e) = err n in XErr (t, e)
+                 | _, None -> XResp (st, BodyOk)) in
+        (base_shoot cfg HNone false (n_of_int 0) [] [] x, base_spec cfg false (n_of_int 0) [] [] x) in
+      let reqs = List.concat_map (fun ph -> let (what, cnt) = cut '*' ph in List.init (int_of_string cnt) (fun _ -> one what))
+                   (String.split_on_char ',' phases) in
+      let codes (s : sample) = Printf.sprintf "%s:%s" (string_of_n s.sm_proto) (string_of_n s.sm_net) in
+      let line l = String.concat " " (Printf.sprintf "n=%d" (List.length l) :: l) in
+      let pred = line (List.concat_map (fun (m, _) -> List.map codes m) reqs) in
+      let want = line (List.map (fun (_, s) -> codes s) reqs) in
+      (pred, verdict (obs = want) "a written phout line does not carry the codes of its own request", true)
   | ["hscen"; name; steps] ->
       let st = steps_of hstep_of steps and nm = bytes_of_hex name in
       let want = s_samples (hscen_spec nm st) in
